@@ -127,6 +127,90 @@ def corpus_transport_force(ctx):
     return []
 
 
+def stage_grid(ctx, drv):
+    """the property's quantifier as a grid instead of a sample: every source kind (local same class -> hard link, local other
+    class -> rsync / internal copy, remote with and without route) x every transport / tool outcome the real code can be driven
+    into for that pair x every pre-existing destination state (absent, unregistered file, recorded N / X / M / Y), each run
+    through the daemon's own chain decide -> search -> pull; same oracles and model comparison as the random histories"""
+    rng = ctx.rng
+    results = []
+    all_lines, spans, all_exp = [], [], []
+    with envmod.Env() as e:
+        probe = wharness.Case(e, rng)
+        srckinds = [("local-same", "h1", "A", "A", True), ("local-other", "h1", "F", "A", True),
+                    ("remote", "h2", "A", "A", True), ("remote-noroute", "h2", "A", "A", False)]
+        prestates = ["absent", "stray", "N", "X", "M", "Y"]
+        for (sk, shost, stype, dtype, routed) in srckinds:
+            # the options depend only on (host, classes, route)
+            class _N:      # minimal stand-ins for feasible_transfers
+                pass
+            a, b = _N(), _N()
+            a.host, a.storage_type, a.address, a.username = shost, stype, ("addr" if routed else None), ("user" if routed else None)
+            b.storage_type = dtype
+            for opt in probe.feasible_transfers(a, b):
+                for pre in prestates:
+                    w = worldmod.World(e)
+                    db = w.db
+                    for m in (db.StorageTransferAction, db.ArchiveFileCopyRequest, db.ArchiveFileImportRequest, db.ArchiveFileCopy,
+                              db.ArchiveFile, db.ArchiveAcq, db.StorageNode, db.StorageGroup):
+                        m.delete().execute()
+                    import shutil
+                    shutil.rmtree(os.path.join(e.tmp, "roots"), ignore_errors=True)
+                    case = wharness.Case.__new__(wharness.Case)
+                    case.env, case.rng, case.w, case.dg = e, rng, w, {}
+                    g1, g2 = w.group("g1"), w.group("g2")
+                    src = w.node("n1", g1, host=shost, stype=stype, address="addr" if routed else None, username="user" if routed else None)
+                    dst = w.node("n2", g2, host="h1", stype=dtype)
+                    case.groups, case.nodes = [g1, g2], [src, dst]
+                    acq = w.acq("acq")
+                    data = bytes(rng.getrandbits(8) for _ in range(40))
+                    f = w.file(acq, rng.choice(["f.dat", "sub/f.dat"]), data)
+                    case.acq, case.files = acq, [f]
+                    w.copy(f, src, has="Y", wants="Y", on_disk=data)
+                    if pre == "stray":
+                        w.put_bytes(dst, f, b"stray bytes, never registered")
+                    elif pre != "absent":
+                        on = None if pre == "N" else (data if pre in ("Y", "M") else b"corrupt corrupt")
+                        w.copy(f, dst, has=pre, wants="Y" if pre != "N" else "N", on_disk=on)
+                    rq = w.req(f, src, g2)
+                    lines = case.setup_lines() + ["w.dump"]
+                    exp = [None] * (len(lines) - 1) + [case.real_dump()]
+                    problems, steps = [], []
+                    try:
+                        sub = wharness.transfer_chain(case, rq, problems, want=opt)
+                    except Exception as ex:  # noqa
+                        import traceback
+                        ctx.violation("grid:raised", f"the transfer chain raised {type(ex).__name__}: {ex} (source {sk}, option {opt}, "
+                                      f"destination {pre})", {"kind": "grid", "source": sk, "option": list(opt), "pre": pre,
+                                                              "trace": traceback.format_exc(limit=4)[-500:]})
+                        continue
+                    for (l, dd) in sub or []:
+                        lines.append(l); exp.append(None)
+                        lines.append("w.dump"); exp.append(None)
+                        steps.append(dd)
+                    exp[-1] = case.real_dump()
+                    h = dict(lines=lines, exp=exp, steps=steps, problems=problems, meta=(sk, opt, pre))
+                    spans.append((len(all_lines), len(all_lines) + len(lines)))
+                    all_lines += lines
+                    all_exp += exp
+                    results.append(h)
+                    ctx.count(f"grid:{sk}:{opt[0]}:{pre}")
+                    ctx.case(("grid", sk, opt, pre), nontrivial=True,
+                             sample={"source": sk, "transport/tool outcome": list(opt), "destination before": pre,
+                                     "steps": [(d.get("kind"), d.get("decision") or d.get("transfer") or d.get("passOn")) for d in steps]}
+                             if len(ctx.samples) < 8 and opt[0] != "ok" and pre == "X" else None)
+        outs = drv.batch(all_lines)
+        for h, (a_, b_) in zip(results, spans):
+            L, X, O = all_lines[a_:b_], all_exp[a_:b_], outs[a_:b_]
+            for i, (l, x, o) in enumerate(zip(L, X, O)):
+                if x is not None and x != o:
+                    if len(ctx.corr_broken) < 5:
+                        ctx.corr_broken.append(dict(stream="transfer-grid-vs-World", case=[h["meta"][0], list(h["meta"][1]), h["meta"][2]],
+                                                    op=L[i - 1], real=x[:500], model=o[:500]))
+                    break
+    return results
+
+
 def run(ctx):
     ok = common.proof_stage(ctx, MODULE)
     drv = common.Driver()
@@ -159,6 +243,7 @@ def run(ctx):
     wharness.Case.step_pull = wrapped
     try:
         results = c01.run_histories(ctx, WEIGHTS, n, 10, "daemon-steps-vs-World(C02)", space_pressure=False)
+        results = results + stage_grid(ctx, drv)          # same per-pull oracles (the wrapper is still installed)
     finally:
         wharness.Case.step_pull = orig
     for h in results:
